@@ -239,7 +239,7 @@ Proof.
   let s := eval vm_compute in c4 in change c4 with s.
   (* int a [ ] = { 1 , 2 } ; *)
   apply (io_init l 0 [_; _; _; _; _] _ [_; _; _] _ [] _ _ _);
-    [discriminate | reflexivity | reflexivity | reflexivity | reflexivity | constructor | reflexivity | ].
+    [reflexivity | reflexivity | reflexivity | reflexivity | constructor | reflexivity | ].
   cbn [length Nat.add].
   (* void f ( ) { ... } *)
   apply (io_func l 11 [_] [_; _; _] 0 3 _ [_; _; _; _; _; _; _; _; _; _; _] _ [] [] []);
@@ -248,7 +248,7 @@ Proof.
   - cbn [length Nat.add].
     (* int b [ ] = { 3 } ; *)
     apply (io_init l 16 [_; _; _; _; _] _ [_] _ [] _ _ _);
-      [discriminate | reflexivity | reflexivity | reflexivity | reflexivity | constructor | reflexivity | ].
+      [reflexivity | reflexivity | reflexivity | reflexivity | constructor | reflexivity | ].
     cbn [length Nat.add].
     apply (io_stmt l _ [_; _] [] []); [apply one_stmt; reflexivity | constructor].
 Qed.
